@@ -274,6 +274,11 @@ class Facts:
             return None
         return c["value"]
 
+    def const_fn(self, path):
+        """The initialiser body of a const item viewed as a function (for expression rules)."""
+        c = self.const(path)
+        return Fn(c, c["_crate"], self)
+
     def const_loc(self, path):
         c = self.consts[path]
         s = self.spans[c["_crate"]][c["span"]]
